@@ -75,6 +75,8 @@ class World:
         self.knockout = scen.get("knockout")
         self.entries_by_step = {}
         self.parent_roots_after_derive = {}
+        self.qlog = {}
+        self._keepalive = []
 
     # ------------------------------------------------------------------------------------------ util
     def stat(self, k, n=1):
@@ -623,6 +625,8 @@ class World:
                 self.stat("returned_ops")
         if self.mode == "C12":
             self.judge(i, op, rec, qsig, label, hres, hexc, fres, fexc, fault, fired, foreign)
+            if not self.violations and hres is not None and fres is not None and not op.get("auto"):
+                self.key_discipline(i, rec, qname, args, label, hres, fres)
         else:
             # C13 evidence: case = (method, class, argument position, layout of that argument, path, fault fired)
             import hashlib as _h
@@ -711,6 +715,38 @@ class World:
         except Exception:
             fresh = None
         self._pre_entry_errors = {f"{p}:{n}": world.entry_error(rec.op, p, n, fresh) for p, n in world.cache_entries(rec.op)}
+
+    def key_discipline(self, i, rec, qname, args, label, hres, fres):
+        """O5 - distinct requests must not be answered from one cache entry: if two requests of the same query with different
+        arguments, issued under the same settings, get bitwise identical answers on the historied object although fresh copies
+        answer them differently, an entry was shared across keys (positional vs keyword, tensor arguments keyed by metadata,
+        upper / method dropped from the key ...).  Works in the approximate regime too, where error functionals are vacuous."""
+        def akey(a):
+            out = {}
+            for k_, v_ in sorted(a.items()):
+                if isinstance(v_, str) and v_ in self.tensors:
+                    out[k_] = "T:" + tensor_sha(self.tensors[v_]["view"])
+                else:
+                    out[k_] = v_
+            return json.dumps(out, sort_keys=True, default=str)
+
+        # identity of what was returned: the same operator object (or the same tensor storage) handed out for two requests.
+        # Bitwise-equal but distinct objects are legitimate (e.g. an eigen-based root computed twice from the same spectrum).
+        hd = frozenset(id(o_) for o_ in hres.ops)
+        fd = tuple(tensor_sha(t) for t in fres.tensors)
+        if not hd:
+            return
+        self._keepalive.extend(hres.ops)  # ids must not be recycled while they are in the log
+        cur = (qname, akey(args), hd, fd, json.dumps(_settings_key()), label)
+        log_ = self.qlog.setdefault(rec.oid, [])
+        for prev in log_:
+            if prev[0] == qname and prev[1] != cur[1] and prev[4] == cur[4] and (prev[2] & hd) and prev[3] != fd:
+                self.stat("o5_checks_hit")
+                self.violate("C12", "key-confusion", rec.cls, qname,
+                             f"step {i}: {label} returns the very same object as the earlier, different request {prev[5]} on the historied "
+                             f"object, although fresh copies answer the two requests differently (same settings): one cache entry serves two keys")
+                return
+        log_.append(cur)
 
     def _cond(self, rec):
         c = getattr(rec, "cond", None)
